@@ -58,4 +58,13 @@ theorem bloom_query_eq (ps : List Nat) (bits : Array Bool) :
   | none => rfl
   | some b => cases b <;> rfl
 
+/-- `BloomFilter::union` (`assert_eq!` on `k` and on the number of bits, `&self.bs | &other.bs`) is the model's `union` -/
+theorem bloom_union_eq (s o : Bloom.St) :
+    bloom_union s.k s.bits.toList o.k o.bits.toList =
+      match Bloom.union s o with
+      | none => Flow.panic
+      | some s' => Flow.cont s'.bits.toList := by
+  unfold bloom_union Bloom.union Bloom.St.m
+  by_cases hk : s.k = o.k <;> by_cases hm : s.bits.size = o.bits.size <;> simp [hk, hm]
+
 end Pds.KernelTie
